@@ -37,3 +37,21 @@ impl ToConstraintField<Fq> for Element {
         Some([self.vartime_compress_to_field()].to_vec())
     }
 }
+
+#[cfg(decaf377_verif)]
+mod verif_coords {
+    //! Verification-only accessor (compiled only with `--cfg decaf377_verif`): exposes the
+    //! affine coordinate variables of an `ElementVar` so that a harness can read the value a
+    //! constraint-system assignment gives them without going through `R1CSVar::value`.
+    use super::{ElementVar, FqVar};
+    use ark_relations::r1cs::SynthesisError;
+
+    impl ElementVar {
+        /// The coordinate variables (x, y) of the element representation (forces decoding of a
+        /// lazily held encoding, exactly like every gadget that consumes the element).
+        pub fn verif_xy(&self) -> Result<(FqVar, FqVar), SynthesisError> {
+            let e = self.inner.element()?;
+            Ok((e.inner.x.clone(), e.inner.y.clone()))
+        }
+    }
+}
